@@ -102,6 +102,7 @@ func runC17(p *core.Prog, r *core.Result) {
 		"R17.8 the string handed to the compiled set is the walked path itself, at most prefix-stripped and separator-normalised by filepath.ToSlash: no character-rewriting function (strings.Replace*, Map, case folding, trimming of characters) lies between the file system and the match",
 		"R17.7 a glob set is applied to each path separately: no directory walk prunes a subtree (SkipDir/SkipAll) depending on a match of the directory's own path",
 		"R17.9 a glob() builtin returns a path only where that very string was matched by the include set and not matched by the exclude set: every element added to a result is added on the edge include.MatchString(x) && !exclude.MatchString(x) for the same x (no shortcut that answers a pattern from the file system, where path normalisation makes non-canonical spellings 'match')",
+		"R17.10 a package is matched against the ignore set under its own path, as the label names it (a slice of the package label): no lexical normaliser of path or path/filepath (Rel, Clean, Join, ...) lies in between, since those never return the empty path of the root package but \".\"",
 		"R17.6 the compiled set is a function of the given pattern list alone (no package-level state, every successful return is the compilation of this call's pattern)",
 	}
 	r.NotDecided = []string{"Go's regexp engine implements the parsed expression (trusted)", "'.' does not match newline in Go's default mode: paths are assumed to contain no newline", "the undocumented [...] character-class pass-through"}
@@ -753,7 +754,7 @@ func runC17(p *core.Prog, r *core.Result) {
 	}
 
 	// ---- R17.5 callers
-	nUse := 0
+	nUse, nPkgPath := 0, 0
 	for _, f := range p.ModuleFuncs() {
 		for _, c := range core.Calls(f) {
 			mc, ok := core.AsMethodCall(c)
@@ -796,26 +797,93 @@ func runC17(p *core.Prog, r *core.Result) {
 			// R17.8 what is matched is the path itself (separator-normalised with filepath.ToSlash, prefix stripped),
 			// not a rewritten string
 			if len(c.Common().Args) > 1 {
+				// the values the matched string is computed from, followed through the parameters of the functions on the way
+				// (a predicate such as (*Project).ignored is handed the string by its callers); one origin per chain of call sites
+				type originInfo struct {
+					calls   map[*ssa.Call]bool
+					pkgPath bool
+				}
+				var origins func(v ssa.Value, depth int) []originInfo
+				origins = func(v ssa.Value, depth int) []originInfo {
+					local := originInfo{calls: map[*ssa.Call]bool{}}
+					var follow []*ssa.Parameter
+					for x := range core.BackwardSlice(v, core.SliceOpts{Stores: true, Helpers: true, ThroughCall: func(*ssa.Call) bool { return true }}) {
+						switch y := x.(type) {
+						case *ssa.Call:
+							local.calls[y] = true
+						case *ssa.Parameter:
+							pf := y.Parent()
+							if pf.Name() == "loadPackage" && pf.Signature.Recv() != nil && y.Type().String() == "string" {
+								local.pkgPath = true // the package label itself: the source
+								continue
+							}
+							if depth < 3 && pf.Parent() == nil && paramIndex(pf, y) >= 0 && len(p.StaticCallers(pf)) > 0 {
+								follow = append(follow, y)
+							}
+						}
+					}
+					if len(follow) == 0 {
+						return []originInfo{local}
+					}
+					var out []originInfo
+					for _, prm := range follow {
+						i := paramIndex(prm.Parent(), prm)
+						for _, site := range p.StaticCallers(prm.Parent()) {
+							if i >= len(site.Common().Args) {
+								continue
+							}
+							for _, sub := range origins(site.Common().Args[i], depth+1) {
+								o := originInfo{calls: map[*ssa.Call]bool{}, pkgPath: local.pkgPath || sub.pkgPath}
+								for k := range local.calls {
+									o.calls[k] = true
+								}
+								for k := range sub.calls {
+									o.calls[k] = true
+								}
+								out = append(out, o)
+							}
+						}
+					}
+					return out
+				}
+				classify := func(o originInfo) (rewrite, normalise string) {
+					for cc := range o.calls {
+						cal := core.Callee(cc)
+						if cal == nil || cal.Pkg == nil {
+							continue
+						}
+						switch cal.Pkg.Pkg.Path() {
+						case "strings", "bytes":
+							switch cal.Name() {
+							case "Replace", "ReplaceAll", "Map", "ToLower", "ToUpper", "ToTitle", "Title", "NewReplacer", "Fields", "TrimSpace", "Trim", "TrimLeft", "TrimRight", "TrimFunc":
+								if n := cal.Pkg.Pkg.Name() + "." + cal.Name(); rewrite == "" || n < rewrite {
+									rewrite = n
+								}
+							}
+						case "regexp":
+							if strings.HasPrefix(cal.Name(), "Replace") {
+								rewrite = "regexp." + cal.Name()
+							}
+						case "path", "path/filepath":
+							switch cal.Name() {
+							case "Rel", "Clean", "Join", "Abs", "Dir", "Base", "EvalSymlinks":
+								if n := cal.Pkg.Pkg.Name() + "." + cal.Name(); normalise == "" || n < normalise {
+									normalise = n
+								}
+							}
+						}
+					}
+					return
+				}
 				rewrite := ""
-				for v := range core.BackwardSlice(c.Common().Args[1], core.SliceOpts{Stores: true, ThroughCall: func(*ssa.Call) bool { return true }}) {
-					cc, ok := v.(*ssa.Call)
-					if !ok {
-						continue
+				var pkgNormalise []string
+				for _, o := range origins(c.Common().Args[1], 0) {
+					rw, nm := classify(o)
+					if rw != "" && (rewrite == "" || rw < rewrite) {
+						rewrite = rw
 					}
-					cal := core.Callee(cc)
-					if cal == nil || cal.Pkg == nil {
-						continue
-					}
-					switch cal.Pkg.Pkg.Path() {
-					case "strings", "bytes":
-						switch cal.Name() {
-						case "Replace", "ReplaceAll", "Map", "ToLower", "ToUpper", "ToTitle", "Title", "NewReplacer", "Fields", "TrimSpace", "Trim", "TrimLeft", "TrimRight", "TrimFunc":
-							rewrite = cal.Pkg.Pkg.Name() + "." + cal.Name()
-						}
-					case "regexp":
-						if strings.HasPrefix(cal.Name(), "Replace") {
-							rewrite = "regexp." + cal.Name()
-						}
+					if o.pkgPath {
+						pkgNormalise = append(pkgNormalise, nm)
 					}
 				}
 				construct := fmt.Sprintf("%s#matches-the-path-%d", fname(f), nUse)
@@ -824,12 +892,24 @@ func runC17(p *core.Prog, r *core.Result) {
 				} else {
 					r.OK("R17.8", construct, p.InstrPos(c.(ssa.Instruction)), "the matched string is the walked path (prefix-stripped / separator-normalised only)")
 				}
+				// R17.10 a package is matched under its own path: the label's package path, sliced - the lexical normalisers of
+				// path and path/filepath never return the empty string (the root package's path), they return "."
+				for _, normalise := range pkgNormalise {
+					nPkgPath++
+					construct := fmt.Sprintf("%s#package-path-verbatim-%d", fname(f), nPkgPath)
+					if normalise != "" {
+						r.Bad("R17.10", construct, p.InstrPos(c.(ssa.Instruction)), "the package path matched against the ignore set passes through %s, which never yields the empty path: the root package is matched as \".\" - a pattern such as .* or ? now ignores the whole project, and the empty pattern no longer matches the root", normalise)
+					} else {
+						r.OK("R17.10", construct, p.InstrPos(c.(ssa.Instruction)), "the package path is matched as the label names it (sliced only)")
+					}
+				}
 			}
 			r.Check(mc.Method == "MatchString", "R17.5", fname(f)+"#glob-use:"+mc.Method, p.InstrPos(c.(ssa.Instruction)), "the compiled glob set is applied with MatchString to the whole path", "the compiled glob set is applied with "+mc.Method+": not a whole-path match")
 		}
 	}
 	checkGlobResults(p, r, fn)
 	r.Floor("R17.5", nUse, 1, "uses of compiled glob sets")
+	r.Floor("R17.10", nPkgPath, 1, "matches of a package path against the ignore set")
 	r.OK("R17.7", "module#walks-do-not-prune-on-match", "-", "checked %d uses of compiled glob sets: no walk callback returns SkipDir/SkipAll under a condition that depends on a match result (violations are listed separately)", nUse)
 }
 
